@@ -62,6 +62,18 @@ def corpus(pid=None):
     return out
 
 
+_DIFF = None
+
+
+def repo_diff(env):
+    """the uncommitted part of the tree under check, taken once per corpus run (so that editing /repo while a run is
+    in progress cannot leak half-written contracts into later entries)"""
+    global _DIFF
+    if _DIFF is None:
+        _DIFF = subprocess.run(['git', '-C', REPO, 'diff', 'HEAD'], capture_output=True, text=True, env=env).stdout
+    return _DIFF
+
+
 def run_entry(e, jobs=None, keep_out=None):
     env = dict(os.environ, GOFLAGS='-mod=mod', GOPROXY='off', GOSUMDB='off', GOTOOLCHAIN='local')
     base = tempfile.mkdtemp(prefix='govc-selftest-', dir=os.environ.get('GOVC_TMP', '/var/tmp'))
@@ -72,7 +84,7 @@ def run_entry(e, jobs=None, keep_out=None):
         # copy of the working tree under check (tracked files + contract files), not of a commit
         with _GIT:
             subprocess.run(['git', '-C', REPO, 'worktree', 'add', '--detach', '-f', wt, 'HEAD'], capture_output=True, text=True, env=env, check=True)
-        d = subprocess.run(['git', '-C', REPO, 'diff', 'HEAD'], capture_output=True, text=True, env=env).stdout
+        d = repo_diff(env)
         if d.strip():
             subprocess.run(['git', '-C', wt, 'apply'], input=d, text=True, env=env)
         a = subprocess.run(['git', '-C', wt, 'apply', e['patch']], capture_output=True, text=True, env=env)
@@ -114,6 +126,7 @@ def run_entry(e, jobs=None, keep_out=None):
 def run(pid=None, parallel=4):
     from concurrent.futures import ThreadPoolExecutor
     es = corpus(pid)
+    repo_diff(dict(os.environ))
     jobs = max(2, 16 // max(1, min(parallel, len(es) or 1)))
     with ThreadPoolExecutor(max_workers=parallel) as ex:
         return list(ex.map(lambda e: run_entry(e, jobs), es))
